@@ -199,6 +199,14 @@ func (c *Chan) Recv() ([]byte, error) {
 			c.onEvent("recvfault", nil, err)
 		}
 		return nil, err
+	case "wrapeof":
+		// a transport's own failure that wraps io.EOF ("unexpected EOF in frame
+		// header"): a failure of the channel, not the peer hanging up
+		err := fmt.Errorf("%w: read frame header: %w", ErrInjected, io.EOF)
+		if c.onEvent != nil {
+			c.onEvent("recvfault", nil, err)
+		}
+		return nil, err
 	case "err":
 		if c.onEvent != nil {
 			c.onEvent("recvfault", nil, ErrInjected)
